@@ -2,6 +2,7 @@ import GbVerif.Model.Bus
 import GbVerif.Spec.Serial
 import GbVerif.Proofs.NatBits
 import GbVerif.Proofs.Enum
+import GbVerif.Proofs.SerialMono
 /-!
 C18 — serial transfers appear on standard output in order; nothing else of the bus model writes to that stream.
 -/
@@ -46,5 +47,25 @@ theorem core_silent_io (io : Io) (a v : Nat) (ha : a &&& 0xff ≠ 0x02) : (io.se
 
 /-- non-vacuity: "GB" as the fallback ROM sends it -/
 example : SerialSpec.output [(0xff01, 0x47), (0xff02, 0x80), (0xff01, 0x42), (0xff02, 0x80), (0xff02, 0x7f)] = [0x47, 0x42] := by decide
+
+
+/-! ### the whole machine
+
+`serial_log` is about the I/O block alone.  For the whole machine (`Core.update Sys.dev`: every instruction, interrupt
+dispatch, OAM DMA, timer, LCD, joypad) the bytes already emitted are never retracted or reordered, in either stepping
+mode: the log after a step extends the log before it. -/
+
+open GbVerif.Core GbVerif.CoreProofs GbVerif.SysProofs in
+theorem serial_log_grows (c c' : Core.State) (h : update Sys.dev c = .ok c') : c.bus.io.serialOut <+: c'.bus.io.serialOut :=
+  update_log h
+
+open GbVerif.Core GbVerif.CoreProofs GbVerif.SysProofs in
+theorem serial_log_grows_blockstep (c c' : Core.State) (h : updateBlock Sys.dev c = .ok c') :
+    c.bus.io.serialOut <+: c'.bus.io.serialOut := updateBlock_log h
+
+open GbVerif.SysProofs in
+/-- the passage of time alone emits nothing -/
+theorem time_is_silent (b b' : Bus.State) (k : Nat) (h : Sys.dev b k = .ok b') (l : List Nat) (hp : l <+: b.io.serialOut) :
+    l <+: b'.io.serialOut := dev_log h hp
 
 end GbVerif.C18
